@@ -90,9 +90,60 @@ def fam(name, n):
         A("end program p")
     elif name == "long-concat-of-strings":
         A("program p"); A("s = " + " // ".join(["'a%d b'" % i for i in range(n + 1)])); A("end program p")
+    elif name.startswith("slot/"):
+        return slot_source(name, n)
     else:
         raise ValueError(name)
     return "\n".join(L) + "\n"
+
+
+# ---------------------------------------------------------------- growth inside every kind of statement
+# "slot/<kind>/<variant>/<shape>": the statement of catalogue variant <variant> with its last integer-literal operand
+# replaced by an expression of nesting depth / length n (the nesting the property speaks of, inside every statement
+# kind of the catalogue rather than in an assignment only).
+SLOT_SHAPES = {"paren": lambda x, n: "(" * n + x + ")" * n,
+               "call": lambda x, n: "f(" * n + x + ")" * n,
+               "sum": lambda x, n: ("(" + x + " + ") * n + x + ")" * n,
+               "chain": lambda x, n: x + (" + " + x) * n,
+               "list": lambda x, n: "[" + ", ".join([x] * (n + 1)) + "]"}
+SLOT_SIZES = [1, 2, 4, 8, 16]
+SLOT_CAP = 600000     # a slot family needs a few hundred calls at n = 1; 4 * c(1) * 16^2 stays far below this
+
+
+def slot_of(text):
+    from .. import perturb
+    toks = perturb.layout_tokens(text)
+    last = None
+    for j, (t, sp) in enumerate(toks):
+        if t.isdigit() and j > 0 and toks[j - 1][0] not in ("*", "=>", "_") and not (j + 1 < len(toks) and toks[j + 1][0] == "_"):
+            last = j
+    return toks, last
+
+
+def slot_source(name, n):
+    from .. import catalogue, perturb
+    _, kind, v, shape = name.split("/")
+    text = catalogue.table(kind)[int(v) - 1]["text"]
+    toks, j = slot_of(text)
+    new = list(toks)
+    new[j] = (SLOT_SHAPES[shape](toks[j][0], n), toks[j][1])
+    return "subroutine nm(arg1, arg2)\n%s\nend subroutine nm\n" % perturb.join_tokens(new)
+
+
+def slot_families(tier, seed):
+    from .. import catalogue
+    stride = 2 if tier == "quick" else 1
+    out = []
+    for kind in ("s", "decl"):
+        tab = catalogue.table(kind)
+        for v in range(1, len(tab) + 1):
+            if tab[v - 1]["std"] == 99 or tab[v - 1]["req"] == "do" or (v + seed) % stride:
+                continue
+            if slot_of(tab[v - 1]["text"])[1] is None:
+                continue
+            for k, shape in enumerate(sorted(SLOT_SHAPES)):
+                out.append("slot/%s/%d/%s" % (kind, v, shape))
+    return out
 
 
 FAMILIES = ["nested-parens", "nested-paren-sums", "nested-if", "nested-block-do", "nested-labelled-block-do", "shared-label-do-continue",
@@ -114,10 +165,11 @@ def measure(case):
 
     def counting(cls, *a, **k):
         cnt[0] += 1
-        if cnt[0] > CAP:
+        if cnt[0] > cap[0]:
             raise Stop()
         return orig(cls, *a, **k)
     out = []
+    cap = [SLOT_CAP if case["fam"].startswith("slot/") else CAP]
     for n in case["sizes"]:
         P = fp.create("f2008")
         cnt[0] = 0
@@ -127,12 +179,12 @@ def measure(case):
                 o, t = fp.parse(P, fam(case["fam"], n))
             except Stop:
                 o = {"res": "cap"}
-            if cnt[0] > CAP:
+            if cnt[0] > cap[0]:
                 o = {"res": "cap"}      # fp.parse reports the Stop as an escape
         finally:
             U.Base.__new__ = orig
         out.append({"n": n, "c": cnt[0], "res": o["res"]})
-        if o["res"] == "cap":
+        if o["res"] == "cap" or (o["res"] != "ok" and case["fam"].startswith("slot/")):
             break
     return {"fam": case["fam"], "out": out}
 
@@ -160,18 +212,33 @@ def run(prop, tier=None, replay=None):
     # expressions nested deeper than about 36 bracket levels exhaust Python's recursion limit in the expression rule chain
     # (RecursionError: known finding KF-C06-3 of property C06, not a question of growth): these two families stop at 32
     deep = {"nested-parens": 32, "nested-paren-sums": 32}
-    res = pmap(measure, [{"fam": f, "sizes": [n for n in sizes if n <= deep.get(f, 10 ** 9)]} for f in fams], chunksize=1, timeout=1200)
+    nhand = len(fams)
+    if not replay:
+        fams = fams + slot_families(tier, chk.seed)
+    jobs = [{"fam": f, "sizes": SLOT_SIZES if f.startswith("slot/") else [n for n in sizes if n <= deep.get(f, 10 ** 9)]} for f in fams]
+    res = pmap(measure, jobs, chunksize=1 if len(jobs) < 100 else 8, timeout=1200)
     events = []
+    skipped = 0
     for f, r in zip(fams, res):
         if "__timeout__" in r or "__died__" in r:
-            chk.violation({"clause": "no-result", "family": f}, "C20: measuring family %s did not finish" % f, {"fam": f})
+            chk.violation({"clause": "no-result", "family": f.split("/")[-1] if f.startswith("slot/") else f},
+                          "C20: measuring family %s did not finish" % f, {"fam": f})
             continue
+        slot = f.startswith("slot/")
+        if slot and r["out"][0]["res"] != "ok":
+            skipped += 1          # the grown operand is not valid in that position: outside the class
+            continue
+        c1 = r["out"][0]["c"]
         for x in r["out"]:
+            if slot and x["res"] not in ("ok", "cap"):
+                break             # accepted when small, refused when larger (e.g. a kind selector): stop this family here
             chk.count()
             chk.distinct((f, x["n"]))
             if x["res"] not in ("ok", "cap"):
                 raise MachineryError("family %s size %d is not accepted by the parser (%s)" % (f, x["n"], x["res"]))
-            events.append({"f": f, "n": x["n"], "c": min(x["c"], CAP), "coef": coefs.get(f, 0)})
+            # hand-written families: recorded coefficient; slot families: four times the count at n = 1 of this very run
+            events.append({"f": f, "n": x["n"], "c": min(x["c"], CAP), "coef": (4 * c1) if slot else coefs.get(f, 0)})
+    chk.cov["slot_families"] = {"measured": len(fams) - nhand - skipped, "not_valid_in_that_position": skipped}
     path = os.path.join(chk.work, "growth.ndjson")
     with open(path, "w") as fh:
         for e in events:
@@ -191,13 +258,17 @@ def run(prop, tier=None, replay=None):
     table = {}
     for e in events:
         table.setdefault(e["f"], []).append(e["c"])
-    chk.cov["counts"] = table
+    chk.cov["counts"] = {f: c for f, c in table.items() if not f.startswith("slot/")}
     for i, f, n, clause in trej:
-        chk.violation({"clause": clause, "family": f}, "C20: family %s violates %s at n = %d: counts %s (bound coefficient %s)" % (f, clause, n, table[f], coefs.get(f)),
+        src = (" - statement: " + slot_source(f, 2).split("\n")[1]) if f.startswith("slot/") else ""
+        chk.violation({"clause": clause, "family": f.split("/")[-1] if f.startswith("slot/") else f},
+                      "C20: family %s violates %s at n = %d: counts %s (bound coefficient %s)%s" % (f, clause, n, table[f], coefs.get(f), src),
                       {"fam": f, "n": n, "counts": table[f]})
     chk.sample({"family": "nested-if", "n": 2, "source": fam("nested-if", 2)})
     chk.sample({"family": "shared-label-do-action", "n": 3, "source": fam("shared-label-do-action", 3)})
     return chk.finish(explanation="effort = number of Base.__new__ calls per parse (deterministic count by a harness-side wrapper), measured for %d input families at n = %s; "
                                   "TLC validates the measurement trace against Growth.tla: c(n) <= coef_f * n^2 with coef_f = 4 x the count at n = 1 recorded in catalogue/effort_coefficients.json, "
-                                  "and c(2n) <= 5 c(n) for n >= 4 (doubling multiplies by at most 2^2 with 25%% slack). A family whose single parse exceeds %d calls is cut off and fails the bound."
+                                  "and c(2n) <= 5 c(n) for n >= 4 (doubling multiplies by at most 2^2 with 25%% slack). A family whose single parse exceeds %d calls is cut off and fails the bound. "
+                                  "Slot families: the statement of every (quick: every second) catalogue variant of kinds s/decl with its last integer operand replaced by nested brackets, nested "
+                                  "references f(f(..)), nested sums, a chain or a list of size n = 1..16; their coefficient is 4 x the count at n = 1 of the same run."
                                   % (len(fams), sizes, CAP))
